@@ -1005,3 +1005,100 @@ def enum_energy_units(tier):
 
 
 SUBS.append(Sub("energy_units", check_energy, enum=enum_energy_units))
+
+
+# ------------------------------------------------------------------------------------------
+# (added by the lead, round 8) reactions of a frame: two members joined by a fixed connection (Lagrange multipliers border the
+# matrices, the dof vectors do not hold them).  Resultant and moment of Calc_Reaction at the clamp balance the force applied at the
+# tip (closed form: the structure is statically determinate), in static and in transient analyses (K u + C v + M a)
+
+
+@st.composite
+def frame_reaction_cases(draw):
+    spec = draw(gb.member_specs(types=("SEG2", "SEG3")))
+    return dict(member=spec, split=draw(st.integers(3, 7)) / 10.0, F=[draw(st.integers(-4, 4)) / 100.0 for _ in range(3)],
+                knee=draw(st.integers(-3, 3)) / 4.0, algo=draw(st.sampled_from(["elliptic", "elliptic", "newmark", "midpoint"])))
+
+
+def check_reactions_frame(case, rec):
+    from EasyFEA import ElemType, Mesher
+    from EasyFEA.Geoms import Line, Point
+
+    spec = case["member"]
+    dim = spec["dim"]
+    kind = "timo" if spec["timoshenko"] else "eb"
+    sig = dict(elemType=spec["elemType"], dim=dim, kind=kind, algo=case["algo"])
+    rec.label(f"frame:{kind}:{dim}d", "algo:" + case["algo"])
+    p1 = np.array(spec["p1"], float)
+    d = np.array(spec["d"], float)
+    L = float(np.linalg.norm(d))
+    pm = p1 + case["split"] * d
+    # second member: along the first one, or turned at the joint (a knee) in the plane / in space
+    d2 = (1 - case["split"]) * d
+    if dim >= 2 and case["knee"]:
+        nrm = np.array([-d[1], d[0], 0.0]) if dim == 2 else np.cross(d, [0.3, -0.5, 1.0])
+        d2 = d2 + case["knee"] * np.linalg.norm(d2) * nrm / np.linalg.norm(nrm)
+    p2 = pm + d2
+    sec = gb._section(spec["b"], spec["h"])
+    ya = lambda v: None  # noqa: E731
+    la = Line(Point(*p1), Point(*pm), L * case["split"] / 2)
+    lb = Line(Point(*pm), Point(*p2), float(np.linalg.norm(d2)) / 2)
+    kw = dict(yAxis=tuple(spec["yAxis"])) if (spec.get("yAxis") and not case["knee"]) else {}
+    ba = Models.Beam.Isotropic(dim, la, sec.copy(), spec["E"], spec["v"], **kw)
+    bb = Models.Beam.Isotropic(dim, lb, sec.copy(), spec["E"], spec["v"], **kw)
+    mesh = Mesher().Mesh_Beams([ba, bb], elemType=ElemType(spec["elemType"]))
+    simu = Simulations.Beam(mesh, Models.Beam.BeamStructure([ba, bb]), useTimoshenko=bool(spec["timoshenko"]))
+    mesh = simu.mesh
+    c = np.asarray(mesh.coord, float)
+    at = lambda p: np.where(np.linalg.norm(c - p, axis=1) < 1e-9 * (1 + L))[0]  # noqa: E731
+    n1, nm, n2 = at(p1), at(pm), at(p2)
+    if nm.size != 2 or n1.size != 1 or n2.size != 1:
+        raise Inconclusive("unexpected joint nodes")
+    unk = simu.Get_unknowns()
+    dof_n = len(unk)
+    simu.add_dirichlet(n1, [0.0] * dof_n, unk)
+    simu.add_connection_fixed(nm)
+    Fg = np.zeros(3)
+    Fg[:dim] = np.array(case["F"], float)[:dim]
+    simu.add_neumann(n2, [float(Fg[i]) for i in range(dim)], unk[:dim])
+    static = case["algo"] == "elliptic"
+    if not static:
+        simu.rho = 2.0
+        simu.Solver_Set_Hyperbolic_Algorithm(0.05, algo=case["algo"])
+        simu.Solve()
+        simu.Save_Iter()
+    u = np.asarray(simu.Solve(), float).ravel()
+    if not np.all(np.isfinite(u)):
+        raise Inconclusive("non-finite solution")
+    R = {}
+    for k in unk:
+        dofs = simu.Bc_dofs_nodes(n1, [k])
+        r = np.asarray(simu.Calc_Reaction(np.asarray(dofs).copy()), float)
+        rec.require(r.shape == (1,), "reaction_shape", f"Calc_Reaction returned shape {r.shape} for one dof", **sig)
+        R[k] = float(r[0])
+    # independent reference: K, C, M without their multiplier border applied to the state
+    n = mesh.Nn * dof_n
+    K, C, M, _ = simu.Get_K_C_M_F()
+    ref = K.tocsr()[:n, :n] @ u[:n]
+    if not static:
+        ref = ref + C.tocsr()[:n, :n] @ np.asarray(simu._Get_v_n(simu.problemType), float)[:n] \
+            + M.tocsr()[:n, :n] @ np.asarray(simu._Get_a_n(simu.problemType), float)[:n]
+    fscale = float(np.abs(Fg).max()) * (1.0 + L + float(np.linalg.norm(d2))) + float(np.abs(ref).max()) * 1e-6 + 1e-12
+    for i, k in enumerate(unk):
+        rec.close(R[k] - ref[n1[0] * dof_n + i], fscale, 1e-9, "reaction_is_internal_force",
+                  f"{kind} {dim}D frame ({case['algo']}): Calc_Reaction on '{k}' at the clamp = {R[k]!r}, K u (+ C v + M a) there = {ref[n1[0] * dof_n + i]!r}", **sig)
+    if static:
+        tr = ["x", "y", "z"][:dim]
+        for i, k in enumerate(tr):
+            rec.close(R[k] + Fg[i], fscale, 1e-8, "frame_reaction_balance", f"{kind} {dim}D frame: reaction {R[k]!r} on '{k}' does not balance the tip "
+                      f"force {Fg[i]!r}", **sig)
+        mom = np.cross(p2 - p1, Fg)
+        rots = {2: [("rz", 2)], 3: [("rx", 0), ("ry", 1), ("rz", 2)]}.get(dim, [])
+        for k, i in rots:
+            rec.close(R[k] + mom[i], fscale, 1e-8, "frame_moment_balance", f"{kind} {dim}D frame: moment reaction {R[k]!r} on '{k}' does not balance "
+                      f"the moment {mom[i]!r} of the tip force about the clamp", **sig)
+    rec.nontrivial(bool(np.abs(Fg).max() > 0))
+
+
+SUBS.append(Sub("reactions_frame", check_reactions_frame, gen=frame_reaction_cases, quick=60, thorough=600, shards=4,
+                doc="two connected members (straight or with a knee): Calc_Reaction at the clamp vs K u (+ C v + M a) without the multiplier border, and vs the tip force and its moment"))
